@@ -306,10 +306,16 @@ func parseContractFile(path, pkgPath string) (*ContractFile, error) {
 			}
 			switch kind {
 			case "invariant":
+				label := ""
+				if strings.HasPrefix(r3, "[") {
+					kk := strings.Index(r3, "]")
+					label, r3 = r3[1:kk], strings.TrimSpace(r3[kk+1:])
+				}
 				c, err := mkClause("invariant", r3, l)
 				if err != nil {
 					return nil, err
 				}
+				c.Name = label
 				ls.Invariants = append(ls.Invariants, c)
 			case "decreases":
 				c, err := mkClause("decreases", r3, l)
@@ -673,7 +679,7 @@ func lexSpec(s string) ([]tok, error) {
 					goto next
 				}
 			}
-			if strings.ContainsRune("+-*/%<>!()[].,:@?&|=", rune(c)) {
+			if strings.ContainsRune("+-*/%<>!()[].,:@?&|={}", rune(c)) {
 				ts = append(ts, tok{"op", string(c), i})
 				i++
 			} else {
@@ -777,11 +783,31 @@ func (p *sparser) expr() (*SExpr, error) {
 				bs[i].Type = bs[i+1].Type
 			}
 		}
+		// optional trigger: { e1, e2 }
+		var pats []*SExpr
+		if p.isOp("{") {
+			p.next()
+			for {
+				pe, err := p.add()
+				if err != nil {
+					return nil, err
+				}
+				pats = append(pats, pe)
+				if p.isOp(",") {
+					p.next()
+					continue
+				}
+				break
+			}
+			if err := p.expect("}"); err != nil {
+				return nil, err
+			}
+		}
 		body, err := p.expr()
 		if err != nil {
 			return nil, err
 		}
-		return &SExpr{Op: "quant", Name: q, Binders: bs, Args: []*SExpr{body}}, nil
+		return &SExpr{Op: "quant", Name: q, Binders: bs, Args: append([]*SExpr{body}, pats...)}, nil
 	}
 	return p.iff()
 }
